@@ -455,12 +455,12 @@ func (r *SuRecord) put(th *Thread, keyval, val Value) {
 	r.trace("Put", keyval, "=", val)
 	r.ensureDeps()
 	if key, ok := keyval.ToStr(); ok {
-		delete(r.invalid, key)
 		old := r.ob.getIfPresent(keyval)
 		if old == nil && r.userow {
 			old = r.getFromRow(key)
 		}
-		r.ob.set(keyval, val)
+		r.ob.set(keyval, val) // panics if readonly
+		delete(r.invalid, key)
 		if old != nil && r.same(old, val) {
 			return
 		}
@@ -723,7 +723,11 @@ func (r *SuRecord) getSpecial(key string) Value {
 func (r *SuRecord) callRule(th *Thread, key string) Value {
 	// this needs to be done first
 	// to handle non-rule fields that are set to invalid by invalidate
-	delete(r.invalid, key)
+	// (a readonly record cannot store the result,
+	// so a stale stored value must stay invalid)
+	if !r.ob.readonly {
+		delete(r.invalid, key)
+	}
 	rule := r.getRule(th, key)
 	if rule == nil || th.rules.has(r, key) {
 		return nil
